@@ -102,6 +102,8 @@ def state_assign(st):
 
 def close(a, b, rel=1e-9, abs_=1e-9):
     a, b = float(a), float(b)
+    if math.isinf(a) or math.isinf(b) or a != a or b != b:
+        return a == b
     return abs(a - b) <= abs_ + rel * max(abs(a), abs(b))
 
 
